@@ -247,7 +247,7 @@ pub fn run(run: &Run) {
             }
         };
         bfs(&eng, vec![rootn], d1, 100_000, &acts, &visit);
-        let points: Vec<Node> = collected.into_inner();
+        let points: Vec<Node> = canonical_order(collected.into_inner());
         points_total += points.len();
         run.set(&format!("restart_points:{}", name), json!(points.len()));
         points.par_iter().for_each(|p| {
